@@ -36,7 +36,11 @@ def run_many(pids, repo, patch):
         for pid in pids:
             p = subprocess.run([sys.executable, '-m', 'usa.check', pid, '--tier', 'quick', '--repo', d], cwd=VERIF, env=env, stdout=subprocess.PIPE, stderr=subprocess.STDOUT, text=True)
             first = [l for l in p.stdout.splitlines() if l.startswith(('  ', 'ANALYSIS-INCOMPLETE'))]
-            out[pid] = (p.returncode, (first[0].strip()[:200] if first else ''))
+            rc = p.returncode
+            if rc == 1 and 'VIOLATION property=' not in p.stdout:
+                rc = 3          # the checker itself crashed (traceback): neither a verdict nor analysis-incomplete
+                first = [l for l in p.stdout.splitlines() if 'Error' in l][-1:] or first
+            out[pid] = (rc, (first[0].strip()[:200] if first else ''))
         return out
     finally:
         shutil.rmtree(d, ignore_errors=True)
